@@ -98,7 +98,7 @@ def classify(pretty):
     if m:
         o = m.group(2)
         return 'ITER_EQ' if o == '==' else 'ITER_NE' if o == '!=' else 'ITER_ARITH'
-    m = re.match(r'^svp::Gen<.*>::(\w+|operator\(\))\((.*)\)$', p)
+    m = re.match(r'^svp::Gen<.*>::(operator\(\)|\w+)\((.*)\)$', p)
     if m:
         return 'GEN' if m.group(1) == 'operator()' else 'GEN_COPY'
     # C++ runtime
